@@ -222,7 +222,7 @@ pub fn decode(data: &[u8], prof: &Profile) -> Scenario {
         }
         let fail_mode = src.below(3) as u8;
         let do_abort = src.chance(prof.p_abort) && feat & F_ABORT != 0;
-        let ab = src.below(2 * n + 2) as u16;
+        let ab = src.below(2 * n + 2) as u32;
         let style = src.u8() >= 128;
         let sched = decode_sched(&mut src, n, feat);
         let alts = vec![decode_sched(&mut src, n, feat | F_CONC | F_LATEACK | F_DECL), decode_sched(&mut src, n, feat | F_CONC | F_DECL)];
